@@ -20,6 +20,42 @@ theorem rle_wrap_counterexample :
   · rw [h]; decide
   · omega
 
+/-- Whole file ids: every canonical file id value (any of the 18 types, any DC / id / access hash
+bit patterns, file reference of any content and length < 2^24 incl. long zero runs, URL, every
+photo-size source) survives `EncodeFileID` followed by `DecodeFileID` (base64 excluded: it is a
+bijection of `encoding/base64`, trusted). -/
+theorem fileid_roundtrip (f : FileID) (hc : f.canon) : decodeRaw (encodeRaw f) = .ok f := by
+  unfold decodeRaw encodeRaw
+  rw [rleDecode_rleEncode]
+  have hl := encodeLatest_length f
+  have h4 : (UInt8.ofNat persistentIDVersion).toNat = 4 := by decide
+  simp only [List.length_append, List.length_singleton, List.getLast?_append, List.getLast?_singleton,
+    List.dropLast_concat]
+  simp [Facts.C38.persistentIDVersionOld, Facts.C38.persistentIDVersionMap, persistentIDVersion,
+    Facts.C38.persistentIDVersion, decodeLatest_roundtrip f hc]
+  omega
+
+/-- Non-vacuity of `fileid_roundtrip`: a photo with a 300-zero file reference and a legacy
+dialog-photo source, and a web document, are canonical. -/
+example :
+    let f : FileID := { type := 2, dc := 2, id := 0xFFFFFFFFFFFFFFFF, accessHash := 0x100, fileRef := List.replicate 300 0 ++ [7],
+                        pss := { type := 6, dialogID := 0xFFFFFFFF00000000, dialogAH := 5, volumeID := 9, localID := 0xFFFFFFFF } }
+    f.canon ∧ decodeRaw (encodeRaw f) = .ok f := by
+  intro f
+  have hc : f.canon :=
+    ⟨by decide, by decide, by decide, by decide,
+     by show (List.replicate 300 (0 : UInt8) ++ [7]).length < 2 ^ 24
+        simp only [List.length_append, List.length_replicate, List.length_singleton]; omega,
+     by decide, by decide⟩
+  exact ⟨hc, fileid_roundtrip f hc⟩
+
+example :
+    let f : FileID := { type := 5, dc := 4, url := [104, 116, 116, 112], fileRef := [0, 0, 1] }
+    f.canon ∧ decodeRaw (encodeRaw f) = .ok f := by
+  intro f
+  have hc : f.canon := by decide
+  exact ⟨hc, fileid_roundtrip f hc⟩
+
 /-- Non-vacuity: the round-trip covers a run longer than the counter's range. -/
 example : rleDecode (rleEncode (List.replicate 300 0 ++ [7])) = List.replicate 300 0 ++ [7] :=
   rle_roundtrip _
